@@ -763,7 +763,7 @@ func (c *Ctx) ruleBalanced() {
 // blockingUnderLockReviewed: the blocking channel operations that run while sharedData.mu may be held, each read and found bounded.
 var blockingUnderLockReviewed = map[string]string{
 	"(*pkg/server.BgpServer).handleMGMTOp":   "reply on the per-operation errCh; the requester (mgmtOperation) is already blocked in the receive on it, and takes no lock",
-	"(*pkg/server.BgpServer).deleteNeighbor": "fsm.deconfiguredNotification has capacity 1 and is written once per neighbor deletion",
+	"(*pkg/server.BgpServer).deleteNeighbor": "fsm.deconfiguredNotification has capacity 1 and deleteNeighbor is its only writer; stopNeighbor then removes the peer from neighborMap under the same exclusive lock, so the same peer cannot be deleted (and written to) twice — audited against the code; the one way the removal could miss the map entry (State.NeighborAddress rewritten for an admin-down peer, which changed peer.ID()) was finding F31 and is repaired",
 	"(*pkg/server.bfdServer).AddPeer":        "select with the server-stopped alternative; the BFD loop and the goroutines it waits for do not need the management context (verified by E1c.counterpart-independent)",
 	"(*pkg/server.bfdServer).DeletePeer":     "select with the server-stopped alternative; the BFD loop and the goroutines it waits for do not need the management context (verified by E1c.counterpart-independent)",
 	"(*pkg/server.bfdServer).Start":          "select with the server-stopped alternative; the BFD loop and the goroutines it waits for do not need the management context (verified by E1c.counterpart-independent)",
